@@ -300,6 +300,46 @@ func runC01(w *World, r *Report) {
 	}
 
 	// ---- clear-on-read
+	// the limit a call asks for is the limit of that call: WithRuntimeMaxSteps(n) replaces the compile-time limit whenever
+	// n > 0 — raising it included (a cyclic graph that needs more steps than nodes+10 is run with a larger budget)
+	r.Rule("C01.runtime-limit-replaces", "runner.run takes opts[i].maxRunSteps as the run's step limit under the one condition maxRunSteps > 0 (no comparison with the compile-time limit)", 1)
+	{
+		run := w.Fn("compose", "runner.run")
+		fMax := w.Field("compose", "Option", "maxRunSteps")
+		fDag := w.Field("compose", "runner", "dag")
+		loopCond := guardIsLoopCond(run)
+		n := 0
+		instrs(run, func(in ssa.Instruction) {
+			phi, ok := in.(*ssa.Phi)
+			if !ok {
+				return
+			}
+			for i, e := range phi.Edges {
+				if !isLoadOfField(e, fMax) {
+					continue
+				}
+				n++
+				pred := phi.Block().Preds[i]
+				positive := func(g guard) bool {
+					op, x, y, ok := asCmp(g.cond)
+					if !ok {
+						return false
+					}
+					return isLoadOfField(x, fMax) && isConstN(y, 0) && ((op == token.GTR && g.pol) || (op == token.LEQ && !g.pol))
+				}
+				extra := extraGuards(pred, loopCond, positive, guardOnField(fDag))
+				// the edge's own branch: pred may end in the `if maxRunSteps > 0` test itself
+				r.Check(len(extra) == 0, "C01.runtime-limit-replaces", fmt.Sprintf("runner.run: step limit taken from the call option #%d", n), e.Pos(), "under maxRunSteps > 0 only", "the call's step limit is adopted only when "+strings.Join(extra, " && ")+": a run-time limit above the compile-time one is ignored — a run that needs more supersteps than the compiled default but fits WithRuntimeMaxSteps(n) fails with the max-steps error instead of returning the value delivered to END")
+			}
+		})
+		if n == 0 {
+			r.Fail("C01.runtime-limit-replaces", "runner.run: step limit taken from the call option", run.Pos(), "no assignment of Option.maxRunSteps to the run's step limit found")
+		}
+	}
+
+	r.Rule("C01.branch-slot", "calculateBranch selects a branch's copy of the node output and its handler list by the branch's position in the node's own branch list (the range index), not by a field of the shared *GraphBranch object (shared with C07)", 1)
+	branchSlotIsLoopIndex(w, r, "C01.branch-slot")
+
 	r.Rule("C01.nested-limit-own", "the run-time step limit of a call (an undesignated Option without component options) is not handed on to nested graph nodes: a graph used as a node keeps the limit it was compiled with, like the same graph compiled alone", 2)
 	undesignatedCarrierCheck(w, r, "C01.nested-limit-own", "WithRuntimeMaxSteps of the outer call replaces the nested graph's own step limit (a nested loop compiled with 3 steps runs 40; a nested graph needing 8 of its 11 steps fails under an outer limit of 5)")
 
